@@ -19,7 +19,7 @@ RULE = ("core-grammar statements (with injected comments) x all dialects x {raw,
         "{dump/load, json, pickle, copy}; non-trivial = tree with a typed node, comment or meta entry; distinct = distinct (sql, dialect, variant)")
 ASSUMPTIONS = ["qualify/annotate_types failures (OptimizeError) remove the variant, not the case"]
 SPEC = {
-    "quick": {"shards": 16, "time_cap": 150, "statements": 1500},
+    "quick": {"shards": 16, "time_cap": 400, "statements": 1500},
     "thorough": {"shards": 16, "time_cap": 1500, "statements": 20000},
 }
 
